@@ -83,6 +83,7 @@ Definition share_of_indices (indices : list Z) : result share :=
   let bits := (zlen indices - 7) * 10 / 16 * 16 in
   if bits <? 0 then Err else                          (* value >> negative: ValueError *)
   if negb (Z.shiftr value bits =? 0) then Err else    (* "Share not 0-padded properly" *)
+  if (zlen indices - 7) * 10 - bits >? 8 then Err else (* "Invalid padding length" (ec24589) *)
   if bits <? 128 then Err else
   mk_share bits id e gi gt gc mi mt value.
 
@@ -94,7 +95,7 @@ Definition share_indices (s : share) : list Z :=
   let a := Z.lor (Z.shiftl a 4) (sh_gc s - 1) in
   let a := Z.lor (Z.shiftl a 4) (sh_mi s) in
   let a := Z.lor (Z.shiftl a 4) (sh_mt s - 1) in
-  let padding := 10 - sh_bits s mod 10 in
+  let padding := (- sh_bits s) mod 10 in                 (* -share_bit_length % 10 (ddaa02c) *)
   let a := Z.lor (Z.shiftl a (padding + sh_bits s)) (sh_value s) in
   let num_words := 4 + (padding + sh_bits s) / 10 in
   let indices := map (fun i => Z.land (Z.shiftr a (10 * (num_words - i - 1))) 1023)
@@ -255,7 +256,8 @@ Section Shamir.
     let left := firstn half payload in
     let right := skipn half payload in
     idb <- int_to_be id 2 ;;
-    if e <? 0 then Err else                               (* 2500 << negative: ValueError *)
+    (* 2500 << negative: ValueError, evaluated inside the loop: not with an empty round list *)
+    if (e <? 0) && (match idxs with [] => false | _ => true end) then Err else
     '(l, r) <- crypt_rounds idxs passphrase (s_shamir ++ idb) (Z.shiftl 2500 e)
                             (zlen payload / 2) left right ;;
     Ok (r ++ l).
